@@ -38,13 +38,17 @@ def measure_facts(protos, P, f):
     f['fmtAsTzProbe'] = o
     o = outcome(lambda: protos['soap11'].to_unicode(P.Date(date_format='%d.%m.%Y'), pydt.date(2020, 1, 2)))
     f['soapDateIso'] = o == {'ok': '2020-01-02'}
+    from spyne.model import ByteArray
+    o = [outcome(lambda: b''.join(b.from_unicode(ByteArray(encoding='base64'), s))) for s in ('AAEC AwQF', 'AAEC\r\nAwQF', 'Y Q = =')]
+    f['b64IgnoresWhitespace'] = o == [{'ok': bytes(range(6))}, {'ok': bytes(range(6))}, {'ok': b'a'}]
+    f['b64IgnoresWhitespaceProbe'] = str(o)
     return f
 
 
 def facts_lean_fields(f):
-    return ('  oldYearPad := .%s\n  fmtErrorsAreFaults := %s\n  fmtAsTz := .%s\n  soapDateIso := %s\n'
+    return ('  oldYearPad := .%s\n  fmtErrorsAreFaults := %s\n  fmtAsTz := .%s\n  soapDateIso := %s\n  b64IgnoresWhitespace := %s\n'
             % (f['oldYearPad'], 'true' if f['fmtErrorsAreFaults'] else 'false', f['fmtAsTz'],
-               'true' if f['soapDateIso'] else 'false'))
+               'true' if f['soapDateIso'] else 'false', 'true' if f['b64IgnoresWhitespace'] else 'false'))
 
 
 SWITCH_WITNESS = {
@@ -53,6 +57,8 @@ SWITCH_WITNESS = {
     'fmtAsTz': ('replace', "DateTime(dt_format=…, as_timezone=tz) does not put what it reads into tz (measured: %r): the "
                            "as_timezone branch of _datetime_from_unicode reads the attribute `as_time_zone`, i.e. converts to "
                            "the machine's local zone"),
+    'b64IgnoresWhitespace': (True, "ByteArray.from_base64 does not skip the white space the xs:base64Binary lexical space allows "
+                                   "('AAEC AwQF', line-wrapped MIME/PEM output): %s"),
     'soapDateIso': (True, "Soap11/Soap12 write a Date(date_format=…) in the custom format but read ISO dates only (iso output: %r): "
                           "their own output is rejected"),
 }
@@ -592,3 +598,74 @@ def run(ctx, protos, P, lex, f, add, check_same, dts, dates, times):
         ctx.case({'op': 'decimal-guard', 's': s_})
         if want not in r:
             ctx.finding('decimal:max_str_len', 'Decimal(max_str_len=8) reads %r as %r' % (s_, r), {'op': 'dec.from', 'input': s_, 'got': str(r)})
+
+    # ======================================================================== D11 xs:base64Binary literals with white space
+    # §3.2.16: a single space may follow every character but the last; whiteSpace=collapse turns any run of
+    # space/tab/CR/LF into that space (and drops leading/trailing runs).  Line-wrapped MIME (76) / PEM (64) output,
+    # 'AAEC AwQF', indented element content are all literals; hexBinary allows white space around only.
+    import base64 as _b64
+    from lxml import etree
+    XS = 'http://www.w3.org/2001/XMLSchema'
+    sch = {t: etree.XMLSchema(etree.fromstring('<xs:schema xmlns:xs="%s"><xs:element name="v" type="xs:%s"/></xs:schema>' % (XS, t)))
+           for t in ('base64Binary', 'hexBinary')}
+
+    def raw_ok(t, text):            # libxml2 with the whiteSpace facet applied (no pre-check as in c08.Lex.ok)
+        if any(ord(ch) < 32 and ch not in '\t\n\r' for ch in text):
+            return False
+        e = etree.Element('v')
+        e.text = text
+        return sch[t].validate(e)
+
+    WS = [' ', ' ', ' ', '\n', '\r\n', '\t', '  ', ' \n ', '\n\n']
+
+    def wrap(txt, n, sep):
+        return sep.join(txt[i:i + n] for i in range(0, len(txt), n))
+
+    blobs11 = [bytes(range(6)), b'a', b'ab', b'abc', b'abcd', b'\xfb\xff\xbe\xff', bytes(range(58)), bytes(range(100)), bytes(255 - i for i in range(200))]
+    for _ in range(40 if ctx.thorough else 10):
+        blobs11.append(bytes(rng.randrange(256) for _ in range(rng.choice([1, 2, 3, 4, 5, 7, 30, 57, 58, 120]))))
+    b64cls = ByteArray(encoding='base64')
+    ws_bad = not f['b64IgnoresWhitespace']
+    for b in blobs11:
+        canon = _b64.b64encode(b).decode('ascii')
+        interior = [wrap(canon, 4, ' '), wrap(canon, 1, ' '), wrap(canon, 76, '\r\n'), wrap(canon, 64, '\n'), wrap(canon, 76, '\n  '),
+                    _b64.encodebytes(b).decode('ascii').rstrip('\n')]
+        for _ in range(3):
+            t = list(canon)
+            for _k in range(rng.randrange(1, 4)):
+                if len(t) > 1:
+                    t.insert(rng.randrange(1, len(t)), rng.choice(WS))
+            interior.append(''.join(t))
+        around = ['\n    ' + wrap(canon, 76, '\n    ') + '\n  ', ' ' + canon, canon + '\n', _b64.encodebytes(b).decode('ascii')]
+        for lit in interior + around:
+            if lit == canon and False:
+                continue
+            is_interior = lit in interior
+            add({'op': 'xsdlex', 't': 'base64Binary', 's': cps(lit)}, {'ok': bool(raw_ok('base64Binary', lit))}, nontrivial=len(lit) < 300)
+            res = [(pn, outcome(lambda: list(b''.join(protos[pn].from_unicode(b64cls, lit))))) for pn in ('base', 'xml', 'soap11', 'json', 'http')]
+            res.append(('base/bytes', outcome(lambda: list(b''.join(base.from_bytes(b64cls, lit.encode('ascii')))))))
+            res.append(('xml/default', outcome(lambda: list(b''.join(protos['xml'].from_unicode(ByteArray, lit, BINARY_ENCODING_BASE64))))))
+            r = check_same('b64ws.from', lit[:60], res)
+            ctx.hit('b64ws:' + ('interior' if is_interior else 'around') + ':' + next(iter(r)))
+            ctx.cov['traces_validated_against_impl'] += 1
+            if not ws_bad:
+                add({'op': 'b64ws.from', 's': cps(lit)}, r, nontrivial=len(lit) < 300)
+            # T3: a literal of the lexical space (white space where the grammar / the collapse facet allow it inside the
+            # literal) is read as the bytes it denotes
+            if is_interior and raw_ok('base64Binary', lit) and any(x != {'ok': list(b)} for _, x in res):
+                ctx.hit('t3-fail:b64ws')
+                fid = 'switch:b64IgnoresWhitespace=False' if ws_bad else 'lex-read:base64Binary:whitespace'
+                ctx.finding(fid, 'the xs:base64Binary literal %r (%d bytes, with white space) is read as %r' % (lit[:48], len(b), [x for x in res if x[1] != {'ok': list(b)}][0]),
+                            {'op': 'b64ws.from', 'input': lit, 'expected': list(b), 'got': str([x for x in res if x[1] != {'ok': list(b)}][:2])})
+        # near misses for the recogniser
+        for _ in range(4):
+            m = mutate_text(rng, rng.choice(interior[:4]), 'AQgw=+/ \n\t-_!')
+            if m and not all(ch.isalnum() and ord(ch) < 128 or ch in '+/= \t\r\n' for ch in m):
+                ctx.hit('xsdlex-skipped-libxml2-quirk:base64Binary')     # libxml2 skips characters outside the alphabet ('!', '-', '_')
+                continue
+            if m:
+                add({'op': 'xsdlex', 't': 'base64Binary', 's': cps(m)}, {'ok': bool(raw_ok('base64Binary', m))}, nontrivial=len(m) < 300)
+        hx = b.hex()
+        for lit in (hx, ' ' + hx, hx + '\n', '\n  ' + hx.upper() + '\n', wrap(hx, 2, ' '), wrap(hx, 8, '\n'), hx[:-1], hx + 'g', mutate_text(rng, hx, '0123456789abcdefABCDEFg \n')):
+            if all(ord(ch) < 128 for ch in lit):
+                add({'op': 'xsdlex', 't': 'hexBinary', 's': cps(lit)}, {'ok': bool(raw_ok('hexBinary', lit))}, nontrivial=len(lit) < 300)
